@@ -5,6 +5,7 @@
 //! the definitions of `spec/Poly.tla`.
 //!
 //! usage: kernels record --tier quick|thorough --out FILE
+//!        kernels replay --event EVENT.json --out FILE   (re-executes one event)
 //!
 //! Every case runs under rayon pools of 1..=17 threads. Outputs are compared
 //! bytewise; one event is written per DISTINCT output, carrying the list of
@@ -90,6 +91,96 @@ fn vec_json_l(v: &[BlsScalar]) -> Value {
     json!({ "l": v.iter().map(fe_to_json).collect::<Vec<_>>() })
 }
 
+/// Arguments of one kernel call, decoded from the event fields (so that a
+/// recorded event can be re-executed verbatim by `replay`).
+#[derive(Default)]
+struct Args {
+    nc: usize,
+    a: Vec<BlsScalar>,
+    b: Vec<BlsScalar>,
+    k: BlsScalar,
+    x: BlsScalar,
+    rows: Vec<usize>,
+    deg: u64,
+}
+
+fn vec_from_json(v: &Value) -> Vec<BlsScalar> {
+    if let Some(s) = v.get("s") {
+        s.as_array().unwrap().iter().map(|x| fe_from_json(x).unwrap()).collect()
+    } else if let Some(l) = v.get("l") {
+        l.as_array().unwrap().iter().map(|x| fe_from_json(x).unwrap()).collect()
+    } else {
+        Vec::new()
+    }
+}
+
+impl Args {
+    fn from_fields(f: &Map<String, Value>) -> Args {
+        let mut a = Args::default();
+        if let Some(v) = f.get("nc") {
+            a.nc = v.as_u64().unwrap() as usize;
+        }
+        if let Some(v) = f.get("a") {
+            a.a = vec_from_json(v);
+        }
+        if let Some(v) = f.get("b") {
+            a.b = vec_from_json(v);
+        }
+        if let Some(v) = f.get("k") {
+            a.k = fe_from_json(v).unwrap();
+        }
+        if let Some(v) = f.get("x") {
+            a.x = fe_from_json(v).unwrap();
+        }
+        if let Some(v) = f.get("rows") {
+            a.rows = v.as_array().unwrap().iter().map(|x| x.as_u64().unwrap() as usize).collect();
+        }
+        if let Some(v) = f.get("deg") {
+            a.deg = v.as_u64().unwrap();
+        }
+        a
+    }
+}
+
+/// The one place where the library is called.
+fn exec(kern: &str, g: &Args) -> Out {
+    match kern {
+        "fft" => res_vec(V::fft(g.nc, &g.a)),
+        "ifft" => res_vec(V::ifft(g.nc, &g.a)),
+        "coset_fft" => res_vec(V::coset_fft(g.nc, &g.a)),
+        "coset_ifft" => res_vec(V::coset_ifft(g.nc, &g.a)),
+        "serial_fft" => res_vec(V::serial_fft(&g.a)),
+        "poly_normalize" => Out::Vec(V::poly_normalize(&g.a)),
+        "poly_degree" => Out::Int(V::poly_degree(&g.a) as u64),
+        "poly_add" => Out::Vec(V::poly_add(&g.a, &g.b)),
+        "poly_add_assign" => Out::Vec(V::poly_add_assign(&g.a, &g.b)),
+        "poly_add_assign_scaled" => Out::Vec(V::poly_add_assign_scaled(&g.a, g.k, &g.b)),
+        "poly_sub" => Out::Vec(V::poly_sub(&g.a, &g.b)),
+        "poly_sub_assign" => Out::Vec(V::poly_sub_assign(&g.a, &g.b)),
+        "poly_neg" => Out::Vec(V::poly_neg(&g.a)),
+        "poly_mul" => Out::Vec(V::poly_mul(&g.a, &g.b)),
+        "poly_scale" => Out::Vec(V::poly_scale(&g.a, &g.k)),
+        "poly_add_scalar" => Out::Vec(V::poly_add_scalar(&g.a, &g.k)),
+        "poly_sub_scalar" => Out::Vec(V::poly_sub_scalar(&g.a, &g.k)),
+        "poly_evaluate" => Out::Scalar(V::poly_evaluate(&g.a, &g.x)),
+        "poly_ruffini" => Out::Vec(V::poly_ruffini(&g.a, g.x)),
+        "batch_inversion" => Out::Vec(V::batch_inversion(&g.a)),
+        "lagrange_coefficients" => res_vec(V::lagrange_coefficients(g.nc, g.x)),
+        "vanishing_eval" => res_scalar(V::vanishing_eval(g.nc, &g.x)),
+        "vanishing_over_coset" => match V::vanishing_over_coset(g.nc, g.deg) {
+            Ok(Some(v)) => Out::Vec(v),
+            Ok(None) => Out::None,
+            Err(e) => Out::Fail(format!("err:{}", err_class(&e))),
+        },
+        "barycentric_eval" => res_scalar(V::barycentric_eval(g.nc, &g.a, &g.x)),
+        "fused_lagrange_pi" => match V::fused_lagrange_pi(g.nc, &g.rows, &g.b, &g.x) {
+            Ok((l1, pi)) => Out::Pair(l1, pi),
+            Err(e) => Out::Fail(format!("err:{}", err_class(&e))),
+        },
+        other => Out::Fail(format!("unknown-kernel:{other}")),
+    }
+}
+
 struct Rec {
     pools: Vec<rayon::ThreadPool>,
     w: BufWriter<File>,
@@ -100,13 +191,14 @@ struct Rec {
 }
 
 impl Rec {
-    /// Runs `f` under every pool, groups identical outcomes, writes events.
-    fn call(&mut self, kern: &str, cls: &str, mut fields: Map<String, Value>, f: &(dyn Fn() -> Out + Sync)) {
+    /// Runs the kernel under every pool, groups identical outcomes, writes events.
+    fn call(&mut self, kern: &str, cls: &str, mut fields: Map<String, Value>) {
         self.case += 1;
+        let args = Args::from_fields(&fields);
         let mut groups: Vec<(Out, Vec<usize>)> = Vec::new();
         for (i, pool) in self.pools.iter().enumerate() {
             let t = i + 1;
-            let r = pool.install(|| guarded(f));
+            let r = pool.install(|| guarded(|| exec(kern, &args)));
             let o = match r {
                 Ok(o) => o,
                 Err(p) => Out::Fail(format!("panic:{}", p.chars().take(120).collect::<String>())),
@@ -255,6 +347,7 @@ fn main() {
     let args: Vec<String> = std::env::args().collect();
     let mut tier = "quick".to_string();
     let mut out = None;
+    let mut event: Option<String> = None;
     let mut i = 1;
     while i < args.len() {
         match args[i].as_str() {
@@ -264,6 +357,10 @@ fn main() {
             }
             "--out" => {
                 out = Some(args[i + 1].clone());
+                i += 1;
+            }
+            "--event" => {
+                event = Some(args[i + 1].clone());
                 i += 1;
             }
             _ => {}
@@ -284,6 +381,22 @@ fn main() {
         seed,
         events: 0,
     };
+    if args.get(1).map(|s| s.as_str()) == Some("replay") {
+        // re-execute one recorded event on the current tree
+        let ev: Value = serde_json::from_str(&std::fs::read_to_string(event.expect("--event FILE")).unwrap()).unwrap();
+        let kern = ev["kern"].as_str().expect("kern").to_string();
+        let cls = ev.get("cls").and_then(|c| c.as_str()).unwrap_or("replay").to_string();
+        let mut f = Map::new();
+        for k in ["nc", "a", "b", "k", "x", "rows", "deg"] {
+            if let Some(v) = ev.get(k) {
+                f.insert(k.to_string(), v.clone());
+            }
+        }
+        r.call(&kern, &cls, f);
+        r.w.flush().unwrap();
+        println!("{}", json!({"events": r.events, "cases": r.case, "out": out, "tier": "replay", "seed": seed}));
+        return;
+    }
     let mut s = Sm(seed.wrapping_mul(0x2545F4914F6CDD1D) ^ 0xC19C19);
     let max_log: u32 = if thorough { 14 } else { 12 };
 
@@ -310,13 +423,7 @@ fn main() {
     }
 
     // ---- FFT family --------------------------------------------------------
-    type Fft = fn(usize, &[BlsScalar]) -> Result<Vec<BlsScalar>, dusk_plonk::prelude::Error>;
-    let ffts: [(&str, Fft); 4] = [
-        ("fft", V::fft),
-        ("ifft", V::ifft),
-        ("coset_fft", V::coset_fft),
-        ("coset_ifft", V::coset_ifft),
-    ];
+    let ffts = ["fft", "ifft", "coset_fft", "coset_ifft"];
     let mut logs: Vec<u32> = (0..=max_log).collect();
     if !thorough {
         logs.push(13); // one case beyond 2^12 with a different stage split
@@ -350,7 +457,7 @@ fn main() {
             plan.push((n, n + 5, Shape::Small));
             plan.push((n - 1, n / 2 + 7, Shape::Small));
         }
-        for (name, f) in ffts.iter() {
+        for name in ffts.iter() {
             if extra13 && (*name == "coset_ifft" || *name == "ifft") {
                 continue;
             }
@@ -362,7 +469,6 @@ fn main() {
                     shape_name(sh)
                 );
                 let fl = fields(vec![("nc", json!(nc)), ("a", vec_json(&a))]);
-                let f = *f;
                 r.call(name, &cls, fl);
             }
         }
